@@ -34,7 +34,7 @@ impl SnapshotTasks {
 pub fn make_snapshot(txn: &mut dyn StorageTxn) -> (r: Result<Vec<u8>>)
     requires old(txn).inv(),
     ensures final(txn).inv(), final(txn).st() == old(txn).st(), final(txn).stored() == old(txn).stored(),
-        //@ob C12 make_snapshot.encodes-exactly-the-current-task-set
+        //@ob C12 C01 make_snapshot.encodes-exactly-the-current-task-set
         match r {
             Ok(b) => snap_decodable(b@) && snap_decode(b@) == old(txn).st().tasks,
             Err(e) => storage_err(e),
@@ -55,7 +55,7 @@ pub fn apply_snapshot(
     ensures final(txn).inv(), final(txn).stored() == old(txn).stored(),
         //@ob C12 apply_snapshot.never-replaces-existing-data
         !is_empty_view(old(txn).st()) ==> r is Err && final(txn).st() == old(txn).st(),
-        //@ob C12 apply_snapshot.installs-exactly-the-decoded-task-set-and-its-version
+        //@ob C12 C01 apply_snapshot.installs-exactly-the-decoded-task-set-and-its-version
         r is Ok ==> is_empty_view(old(txn).st())
             && (snap_decodable(snapshot@) ==> final(txn).st() == (TxnView { tasks: snap_decode(snapshot@), base: version, ..old(txn).st() })),
         r matches Err(e) ==> storage_err(e) || (e is Database),
